@@ -281,6 +281,20 @@ class TermEval:
             return d
         return None
 
+    def _ctext(self, test: ast.AST, p: Path) -> str:
+        """Condition text with local aliases of the object's attributes resolved (net_flow = self._equation -> self._equation)."""
+        env = p.env
+
+        class A(ast.NodeTransformer):
+            def visit_Name(self, node):
+                v = env.get(node.id)
+                if isinstance(v, SObj) and "[" not in v.role and isinstance(node.ctx, ast.Load):
+                    return ast.Attribute(value=ast.Name(id="self", ctx=ast.Load()), attr=v.role, ctx=ast.Load())
+                return node
+        if not any(isinstance(n, ast.Name) and isinstance(env.get(n.id), SObj) for n in ast.walk(test)):
+            return src(test)
+        return src(ast.fix_missing_locations(A().visit(copy.deepcopy(test))))
+
     def _if(self, s: ast.If, p: Path) -> List[Path]:
         verdict = self._static_test(s.test, p)
         out: List[Path] = []
@@ -291,11 +305,11 @@ class TermEval:
                 lenof = tv.text
         if verdict is not False:
             q = p.fork()
-            q.conds.append((src(s.test), True))
+            q.conds.append((self._ctext(s.test, p), True))
             out += self._block(s.body, [q])
         if verdict is not True:
             q = p.fork()
-            q.conds.append((src(s.test), False))
+            q.conds.append((self._ctext(s.test, p), False))
             if lenof is not None:
                 q.env["#empty:" + lenof] = SNone()      # `if len(xs):` false -> xs is empty on this path
             out += self._block(s.orelse, [q]) if s.orelse else [q]
@@ -311,7 +325,7 @@ class TermEval:
                 if cls is not None and self.idx.subclasses(r.id) and not _instantiated(self.idx, r.id):
                     return False
         # a condition already on the path
-        t = src(test)
+        t = self._ctext(test, p)
         for c, v in p.conds:
             if c == t:
                 return v
